@@ -201,6 +201,11 @@ class BitStringPayloadDecoder(AbstractSimplePayloadDecoder):
                 if isinstance(chunk, SubstrateUnderrunError):
                     yield chunk
 
+            if trailingBits and not chunk:
+                raise error.PyAsn1Error(
+                    'Trailing bits %s in empty BIT STRING' % trailingBits
+                )
+
             value = self.protoComponent.fromOctetString(
                 chunk, internalFormat=True, padding=trailingBits)
 
@@ -229,8 +234,11 @@ class BitStringPayloadDecoder(AbstractSimplePayloadDecoder):
                 if isinstance(component, SubstrateUnderrunError):
                     yield component
 
+            if not component:
+                raise error.PyAsn1Error('Empty BIT STRING fragment')
+
             trailingBits = oct2int(component[0])
-            if trailingBits > 7:
+            if trailingBits > 7 or trailingBits and len(component) == 1:
                 raise error.PyAsn1Error(
                     'Trailing bits overflow %s' % trailingBits
                 )
@@ -275,8 +283,11 @@ class BitStringPayloadDecoder(AbstractSimplePayloadDecoder):
             if component is eoo.endOfOctets:
                 break
 
+            if not component:
+                raise error.PyAsn1Error('Empty BIT STRING fragment')
+
             trailingBits = oct2int(component[0])
-            if trailingBits > 7:
+            if trailingBits > 7 or trailingBits and len(component) == 1:
                 raise error.PyAsn1Error(
                     'Trailing bits overflow %s' % trailingBits
                 )
